@@ -305,6 +305,8 @@ void HttpMessage::readBody()
 		int maxToRead = _socket->available(), bytesRead = 0;
 		if (!chunked && maxToRead <= 0) // readable but nothing to read: the peer closed before sending the whole body
 			break;
+		if (!chunked && size > 0 && maxToRead > size) // the rest belongs to the next message on this connection
+			maxToRead = size;
 		if (chunked)
 		{
 			String chunkSize = _socket->readLine();
